@@ -518,6 +518,44 @@ def mark_spill(case):
     return case
 
 
+def share_positions(rng, regs):
+    """give the regions of a list numerically identical positions in pairwise different source frames."""
+    pool = list(regs[0]['pts'])
+    while len(pool) < 3:
+        pool.append([gen_number(rng, 0.0, 359.99), gen_number(rng, -85.0, 85.0)])
+    used = [(regs[0]['frame'], json_key(regs[0].get('attrs')))]
+    for r in regs[1:]:
+        for _ in range(20):
+            f = rng.choice(SKY_FRAMES)
+            a = dict(rng.choice(FRAME_ATTRS[f])) if f in FRAME_ATTRS and rng.random() < 0.4 else None
+            if (f, json_key(a)) not in used:
+                break
+        used.append((f, json_key(a)))
+        r['frame'] = f
+        if a:
+            r['attrs'] = a
+        else:
+            r.pop('attrs', None)
+        k = rng.randrange(len(pool))
+        if r['cls'] == 'polygon':
+            # some (or all) vertices are shared
+            idx = rng.sample(range(len(r['pts'])), rng.randint(1, len(r['pts'])))
+            for j, i in enumerate(idx):
+                r['pts'][i] = list(pool[(k + j) % len(pool)])
+            if len({tuple(p) for p in r['pts']}) < 3:
+                r['pts'] = [list(pool[(k + j) % len(pool)]) for j in range(3)]
+        else:
+            for j in range(len(r['pts'])):
+                r['pts'][j] = list(pool[(k + j) % len(pool)])
+        if r['cls'] == 'line' and r['pts'][0] == r['pts'][1]:
+            r['pts'][1] = list(pool[(k + 1) % len(pool)])
+
+
+def json_key(x):
+    import json
+    return json.dumps(x, sort_keys=True)
+
+
 def gen_write_case(rng):
     t = rng.random()
     sky = rng.random() < 0.65
@@ -540,6 +578,14 @@ def gen_write_case(rng):
         cls = rng.choice(WRITE_CLASSES)
         frame = f0 if (same or not sky) else rng.choice(SKY_FRAMES)
         regs.append(gen_region(rng, cls, sky, frame, radunit, prec, tiny=rng.random() < 0.01))
+    # the same lon/lat NUMBERS reused across regions that live in different source frames (or the same frame family
+    # with another equinox / obstime): every one must land where ITS frame says (a per-call cache keyed by the numbers
+    # alone would write the later ones at the first one's transformed position)
+    if sky and rng.random() < 0.2:
+        while len(regs) < 2 or (len(regs) < 4 and rng.random() < 0.5):
+            regs.append(gen_region(rng, rng.choice(WRITE_CLASSES), True, rng.choice(SKY_FRAMES), radunit, prec))
+        share_positions(rng, regs)
+        case['shared_positions'] = True
     # the malformed / unsupported stream
     if t < 0.015:
         coordsys = rng.choice(SKY_FRAMES) if not sky else 'image'
